@@ -4,7 +4,7 @@ CONSTANT CoefSel = "full"
 CONSTANT XIds = {1, 2, 3, 4, 5, 6}
 CONSTANT ZIds = {1, 3}
 CONSTANT HIds = {1, 3, 5}
-CONSTANT Lays = {1, 2, 3, 4}
+CONSTANT Lays = {1, 2, 3, 4, 5}
 CONSTANT Mod = 1
 CONSTANT TsMod = 2
 INIT Init
